@@ -23,7 +23,7 @@ def run(ctx):
     rng = ctx["rng"]
     thorough = ctx["tier"] == "thorough"
     common.import_dds()
-    combos = [(pl, pr, od) for pl in ("root", "helper", "kept", "datafn") for pr in ("datafn", "keep")
+    combos = [(pl, pr, od) for pl in ("root", "helper", "kept", "datafn", "feeds_keep") for pr in ("datafn", "keep")
               for od in ("before", "after", "earlier", "never")]
     reps = 4 if thorough else 1
     combos = [c + ("none",) for c in combos] + [(pl, "keep", od, ru) for pl in ("root", "helper", "kept", "datafn")
@@ -124,7 +124,7 @@ def run(ctx):
                 if rep == 0 and (placement, producer, order, reuse) == ("kept", "datafn", "before", "none"):
                     res.sample({"case": meta, "source": case["source"], "first_value": r["value"]})
     pipeline.close_ref()
-    res.rule = ("all 32 combinations placement {root, helper, kept, datafn} x producer {datafn, keep} x order {before, after, earlier, never}, plus 16 where the producing function already appeared in the evaluation (called / kept at another path) "
+    res.rule = ("all 40 combinations placement {root, helper, kept, datafn, loaded value fed to a keep} x producer {datafn, keep} x order {before, after, earlier, never}, plus 16 where the producing function already appeared in the evaluation (called / kept at another path) "
                 "(x%d with fresh random variables / stores / entry kinds), each followed by re-evaluation, producer edit, unrelated edit; one "
                 "case = one combination" % reps)
     res.exhaustive = True
